@@ -3,6 +3,7 @@
 use vstd::prelude::*;
 use std::ops::Range;
 use std::ops::{Deref, DerefMut};
+use std::cmp::Ordering;
 verus! {
 //@include shims.rs
 //@include types_error.rs
@@ -538,8 +539,74 @@ pub open spec fn cond_post(ca: Option<Reference<Expression>>, cb: Option<Referen
         _ => false,
     }
 }
-/// effect of analysing a call statement (zip().enumerate(), symbol table): abstract
-pub uninterp spec fn call_post(o: CallStatement, n: CallStatement, table: LookupTable) -> bool;
+pub fn datatype_eq(a: &DataType, b: &DataType) -> (r: bool)
+    ensures r == (*a == *b),
+{ *a == *b }
+pub open spec fn is_must_be_variable(m: ErrorMessage, callee: Seq<char>, n: int) -> bool {
+    m matches ErrorMessage::SemanticErrorMessage(sm) && sm matches SemanticErrorMessage::ArgumentMustBeAVariable(s, k) && s@ == callee && k == n
+}
+pub open spec fn is_type_mismatch(m: ErrorMessage, callee: Seq<char>, n: int) -> bool {
+    m matches ErrorMessage::SemanticErrorMessage(sm) && sm matches SemanticErrorMessage::ArgumentsTypeMismatch(s, k) && s@ == callee && k == n
+}
+/// Reference-parameter rule: an argument for a `ref` parameter that is not a variable gets exactly one "argument must be a
+/// variable" naming the callee and the 1-based argument position, on the argument's own range.
+pub open spec fn must_be_var_ok(a: Expression, is_ref: bool, callee: Seq<char>, n: int, errs: Seq<SplError>) -> bool {
+    if is_ref && !(a is Variable) { errs.len() == 1 && errs[0].0 == expr_info(a).range && is_must_be_variable(errs[0].1, callee, n) } else { errs.len() == 0 }
+}
+/// Argument type rule: if both the argument and the parameter have a type and they differ, exactly one "argument type
+/// mismatch" naming the callee and the position, on the argument's own range; otherwise none.
+pub open spec fn mismatch_ok(t: Option<DataType>, pt: Option<DataType>, range: Range<usize>, callee: Seq<char>, n: int, errs: Seq<SplError>) -> bool {
+    if t is Some && pt is Some && t->0 != pt->0 { errs.len() == 1 && errs[0].0 == range && is_type_mismatch(errs[0].1, callee, n) } else { errs.len() == 0 }
+}
+pub open spec fn info_grew(o: AstInfo, n: AstInfo) -> bool {
+    n.errors@.len() >= o.errors@.len() && appended(o, n, n.errors@.len() - o.errors@.len())
+}
+/// m1: the argument after the reference-parameter rule; m2: after its own analysis; b: after the type rule
+pub open spec fn call_arg_mid(a: Expression, m1: Expression, m2: Expression, b: Expression, param: VariableEntry, callee: Seq<char>, n: int, table: LookupTable) -> bool {
+    &&& m1 == with_info(a, expr_info(m1)) && info_grew(expr_info(a), expr_info(m1))
+    &&& must_be_var_ok(a, param.is_ref, callee, n, tail(expr_info(a), expr_info(m1)))
+    &&& expr_post(m1, m2, table)
+    &&& b == with_info(m2, expr_info(b)) && info_grew(expr_info(m2), expr_info(b))
+    &&& mismatch_ok(expr_type(m1, table), param.data_type, expr_info(a).range, callee, n, tail(expr_info(m2), expr_info(b)))
+}
+pub open spec fn wit2(a: Expression, b: Expression) -> bool { true }
+/// every argument that has a parameter went through the per-argument rules; surplus arguments are untouched
+pub open spec fn args_post(oa: Seq<Reference<Expression>>, na: Seq<Reference<Expression>>, params: Seq<VariableEntry>, callee: Seq<char>, table: LookupTable) -> bool {
+    na.len() == oa.len() && forall|i: int| 0 <= i < oa.len() ==> (#[trigger] na[i]).offset == oa[i].offset
+        && (if i < params.len() { exists|m1: Expression, m2: Expression| #[trigger] wit2(m1, m2) && call_arg_mid(oa[i].reference, m1, m2, na[i].reference, params[i], callee, i + 1, table) }
+            else { na[i] == oa[i] })
+}
+pub open spec fn is_call_msg(m: ErrorMessage, kind: int, name: Seq<char>) -> bool {
+    m matches ErrorMessage::SemanticErrorMessage(sm) && match sm {
+        SemanticErrorMessage::UndefinedProcedure(s) => kind == 0 && s@ == name,
+        SemanticErrorMessage::CallOfNoneProcedure(s) => kind == 1 && s@ == name,
+        SemanticErrorMessage::TooFewArguments(s) => kind == 2 && s@ == name,
+        SemanticErrorMessage::TooManyArguments(s) => kind == 3 && s@ == name,
+        _ => false,
+    }
+}
+/// Call rules: calling an unbound name gives exactly one "undefined procedure", calling something that is not a procedure
+/// exactly one "call of non-procedure", fewer / more arguments than parameters exactly one "too few" / "too many arguments";
+/// each names the callee and lies on the call statement's own range; an equal count gives none.
+pub open spec fn call_rule_ok(entry: Option<Entry>, n_args: int, name: Seq<char>, range: Range<usize>, errs: Seq<SplError>) -> bool {
+    match entry {
+        None => errs.len() == 1 && errs[0].0 == range && is_call_msg(errs[0].1, 0, name),
+        Some(Entry::Procedure(p)) =>
+            if n_args < p.parameters@.len() { errs.len() == 1 && errs[0].0 == range && is_call_msg(errs[0].1, 2, name) }
+            else if n_args > p.parameters@.len() { errs.len() == 1 && errs[0].0 == range && is_call_msg(errs[0].1, 3, name) }
+            else { errs.len() == 0 },
+        Some(_) => errs.len() == 1 && errs[0].0 == range && is_call_msg(errs[0].1, 1, name),
+    }
+}
+pub open spec fn call_post(o: CallStatement, n: CallStatement, table: LookupTable) -> bool {
+    &&& n.name == o.name
+    &&& info_grew(o.info, n.info)
+    &&& call_rule_ok(lookup_spec(table, o.name.value@), o.arguments@.len() as int, o.name.value@, o.info.range, tail(o.info, n.info))
+    &&& match lookup_spec(table, o.name.value@) {
+        Some(Entry::Procedure(p)) => args_post(o.arguments@, n.arguments@, p.parameters@, o.name.value@, table),
+        _ => n.arguments == o.arguments,
+    }
+}
 pub open spec fn opt_expr_wf(o: Option<Reference<Expression>>) -> bool {
     match o { Some(e) => expr_wf(e.reference), None => true }
 }
@@ -613,12 +680,32 @@ pub open spec fn stmt_post(o: Statement, n: Statement, table: LookupTable) -> bo
     open spec fn pre(&self) -> bool { stmt_wf(Statement::Block(*self)) }
 //@ assume_body fn analyze
 //@end
-//~assume `impl AnalyzeStatement for CallStatement` (zip().enumerate(), symbol table) is abstract: call_post is uninterpreted
+//~assume (R6) the argument loop of CallStatement::analyze applies its body — verified separately as `call_argument_rule` — to argument i and parameter i, in order, for every i below both lengths, and touches nothing else
+#[verifier::external_body]
+pub fn call_arguments_loop(args: &mut Vec<Reference<Expression>>, params: &Vec<VariableEntry>, callee: &Identifier, table: &LookupTable)
+    requires forall|i: int| 0 <= i < old(args)@.len() ==> expr_wf((#[trigger] old(args)@[i]).reference), callee.info.range.end > 0,
+    ensures args_post(old(args)@, final(args)@, params@, callee.value@, *table),
+{ unimplemented!() }
+//@extract spl_frontend/src/ast.rs :: derive ToRange :: struct CallStatement
+//@ open
+    open spec fn range_spec(&self) -> Range<usize> { self.info.range }
+//@end
 //@extract spl_frontend/src/table/semantic.rs :: impl AnalyzeStatement for CallStatement
+//@ rewrite call_argument_loop string_clone_self_name_value
 //@ open
     open spec fn post(o: Self, n: Self, table: LookupTable) -> bool { call_post(o, n, table) }
     open spec fn pre(&self) -> bool { stmt_wf(Statement::Call(*self)) }
-//@ assume_body fn analyze
+//@ at_end fn analyze
+proof {
+            let o = *old(self);
+            assert(self.info.errors@.subrange(0, o.info.errors@.len() as int) =~= o.info.errors@);
+            if self.info.errors@.len() == o.info.errors@.len() + 1 {
+                assert(tail(o.info, self.info) =~= seq![self.info.errors@[o.info.errors@.len() as int]]);
+            } else {
+                assert(tail(o.info, self.info) =~= Seq::<SplError>::empty());
+            }
+        }
+    
 //@end
 //@extract spl_frontend/src/table/semantic.rs :: impl AnalyzeStatement for IfStatement
 //@ rewrite as_ref_on_mut_reference
@@ -681,36 +768,6 @@ proof {
         
 //@end
 // ---------- call rules, per argument: the body of the argument loop of CallStatement::analyze (R6: lifted loop body)
-pub fn datatype_eq(a: &DataType, b: &DataType) -> (r: bool)
-    ensures r == (*a == *b),
-{ *a == *b }
-pub open spec fn is_must_be_variable(m: ErrorMessage, callee: Seq<char>, n: int) -> bool {
-    m matches ErrorMessage::SemanticErrorMessage(sm) && sm matches SemanticErrorMessage::ArgumentMustBeAVariable(s, k) && s@ == callee && k == n
-}
-pub open spec fn is_type_mismatch(m: ErrorMessage, callee: Seq<char>, n: int) -> bool {
-    m matches ErrorMessage::SemanticErrorMessage(sm) && sm matches SemanticErrorMessage::ArgumentsTypeMismatch(s, k) && s@ == callee && k == n
-}
-/// Reference-parameter rule: an argument for a `ref` parameter that is not a variable gets exactly one "argument must be a
-/// variable" naming the callee and the 1-based argument position, on the argument's own range.
-pub open spec fn must_be_var_ok(a: Expression, is_ref: bool, callee: Seq<char>, n: int, errs: Seq<SplError>) -> bool {
-    if is_ref && !(a is Variable) { errs.len() == 1 && errs[0].0 == expr_info(a).range && is_must_be_variable(errs[0].1, callee, n) } else { errs.len() == 0 }
-}
-/// Argument type rule: if both the argument and the parameter have a type and they differ, exactly one "argument type
-/// mismatch" naming the callee and the position, on the argument's own range; otherwise none.
-pub open spec fn mismatch_ok(t: Option<DataType>, pt: Option<DataType>, range: Range<usize>, callee: Seq<char>, n: int, errs: Seq<SplError>) -> bool {
-    if t is Some && pt is Some && t->0 != pt->0 { errs.len() == 1 && errs[0].0 == range && is_type_mismatch(errs[0].1, callee, n) } else { errs.len() == 0 }
-}
-pub open spec fn info_grew(o: AstInfo, n: AstInfo) -> bool {
-    n.errors@.len() >= o.errors@.len() && appended(o, n, n.errors@.len() - o.errors@.len())
-}
-/// m1: the argument after the reference-parameter rule; m2: after its own analysis; b: after the type rule
-pub open spec fn call_arg_mid(a: Expression, m1: Expression, m2: Expression, b: Expression, param: VariableEntry, callee: Seq<char>, n: int, table: LookupTable) -> bool {
-    &&& m1 == with_info(a, expr_info(m1)) && info_grew(expr_info(a), expr_info(m1))
-    &&& must_be_var_ok(a, param.is_ref, callee, n, tail(expr_info(a), expr_info(m1)))
-    &&& expr_post(m1, m2, table)
-    &&& b == with_info(m2, expr_info(b)) && info_grew(expr_info(m2), expr_info(b))
-    &&& mismatch_ok(expr_type(m1, table), param.data_type, expr_info(a).range, callee, n, tail(expr_info(m2), expr_info(b)))
-}
 //~assume the argument loop of CallStatement::analyze (`zip(args.iter_mut().map(as_mut), &params).enumerate()`) visits argument i together with parameter i, i counted from 0 (iterator semantics; R6); the rest of CallStatement::analyze (symbol table lookup, argument count rules) is not under contract
 //@extract spl_frontend/src/table/semantic.rs :: impl AnalyzeStatement for CallStatement :: fn analyze :: loopbody 0
 //@ rewrite self_name_clone_to_callee ref_ne
@@ -743,7 +800,6 @@ proof {
                         assert(wit2(m1, m2));
                     }
 //@end
-pub open spec fn wit2(a: Expression, b: Expression) -> bool { true }
 
 //~not_decided declaration and main rules (table/build.rs: HashMap, closures), call rules for the number of arguments and the callee lookup (symbol table), named-variable rules (symbol table), therefore "a valid program gets no diagnostics at all"
 //~not_decided termination of the trait-dispatched recursion (exec_allows_no_decreases_clause): partial correctness
